@@ -15,7 +15,7 @@ Record bq := {
   q_buf : list Z;      (* every byte written so far, in order; the put position is its length *)
   q_g : Z;             (* get position *)
   q_F : Z;             (* declared end *)
-  q_B : Z;             (* buffer size (flow control only) *)
+  q_B : Z;             (* buffer size (flow control only; a larger read request raises it) *)
   q_gcount : Z;
   q_rd : Z;            (* 0 good, 6 eof|fail *)
   q_abort : bool;
@@ -37,7 +37,7 @@ Definition bq_step (q : bq) (o : uop) : option (bq * list Z) :=
       let beyond := q_F q <? n + q_g q in
       let n' := if beyond then q_F q - q_g q else n in
       if (0 <? n') && ((q_p q <? q_g q + n') || (q_g q <? q_hor q)) then None else
-      Some ({| q_buf := q_buf q; q_g := q_g q + Z.max 0 n'; q_F := q_F q; q_B := q_B q; q_gcount := Z.max 0 n';
+      Some ({| q_buf := q_buf q; q_g := q_g q + Z.max 0 n'; q_F := q_F q; q_B := if q_B q <? n then n else q_B q; q_gcount := Z.max 0 n';
                q_rd := if beyond then 6 else if 0 <? n then 0 else q_rd q;
                q_abort := q_abort q; q_hor := q_hor q; q_dcs := q_dcs q |},
             slice (q_g q) n' (q_buf q))
